@@ -271,7 +271,7 @@ class ClassVal:
         out = []
         for c in self.mro():
             if c.node is None:
-                continue
+                return None
             if c.slots is None:
                 return None
             out.extend(c.slots)
@@ -773,6 +773,8 @@ class Interp:
                 return Pending("gen_asend", g, args[0])
             if fn.name == "athrow":
                 return Pending("gen_athrow", g, args[0] if len(args) == 1 else args[1])
+        if isinstance(fn, CoroAwaitMethod):
+            return AwaitIter(fn.coro)
         if isinstance(fn, ListMethod):
             from .builtins_model import list_method
             return (yield from list_method(self, fn.lst, fn.name, list(args), dict(kwargs)))
@@ -1011,6 +1013,8 @@ class Interp:
                     return BoundMethod(o.cls, m.fn)
                 if isinstance(m, Property):
                     return PropertyCall(o, m)
+                if isinstance(m, Obj) and m.cls is not None and m.cls.lookup("__get__") is not None:
+                    return DescriptorCall(o, m)
                 return m
             raise PyRaise(ExcVal("AttributeError", ident=("attr", name)))
         if isinstance(o, ClassVal):
@@ -1099,6 +1103,14 @@ class Interp:
         if isinstance(o, AwaitifyWrapped) and name == "__wrapped__":
             return o.fn
         raise Unsupported(f"attribute {name} of {o!r}")
+
+    def resolve_attr(self, r):
+        if isinstance(r, PropertyCall):
+            return (yield from self.call(r.prop.fget, [r.obj], {}))
+        if isinstance(r, DescriptorCall):
+            g = r.desc.cls.lookup("__get__")
+            return (yield from self.call(g, [r.desc, r.obj, r.obj.cls], {}))
+        return r
 
     def hasattr(self, o, name):
         try:
@@ -1214,6 +1226,12 @@ class InstanceDict:
 class PropertyCall:
     def __init__(self, obj, prop):
         self.obj, self.prop = obj, prop
+
+
+class DescriptorCall:
+    """attribute found on the class is a (non-data) descriptor object: `type(d).__get__(d, instance, owner)`"""
+    def __init__(self, obj, desc):
+        self.obj, self.desc = obj, desc
 
 
 class AwaitIter:
@@ -1767,9 +1785,7 @@ class Frame:
 
     def load_attr(self, o, nm):
         r = self.i.getattr(o, nm)
-        if isinstance(r, PropertyCall):
-            return (yield from self.i.call(r.prop.fget, [r.obj], {}))
-        return r
+        return (yield from self.i.resolve_attr(r))
 
     def e_Attribute(self, e):
         o = yield from self.ev(e.value)
